@@ -265,6 +265,43 @@ def faulted(s):
     return bool(M.world(s.ctx).faults)
 
 
+def _global_state():
+    """Process-global mutable state of the serializer (mutable class attributes of AutoSerialize, mutable module globals):
+    what a call could leave behind for the NEXT save.  The interpreter runs such concrete containers natively."""
+    import copy
+    import sys
+
+    out = {}
+    mod = sys.modules[AS.__module__]
+    for owner, ns in (("AutoSerialize", vars(AS)), ("serialize", vars(mod))):
+        for k, v in ns.items():
+            if isinstance(v, (set, list, dict, bytearray)) and not (k.startswith("__") and k.endswith("__")):
+                out[f"{owner}.{k}"] = (v, copy.deepcopy(v))
+    return out
+
+
+_GLOBAL0 = _global_state()  # as imported, before anything was run
+
+
+def reset_global_state():
+    """Every symbolic path starts from the imported state (paths must not see what another path left behind)."""
+    for k, (live, snap) in _global_state().items():
+        ref = _GLOBAL0.get(k, (None, type(live)()))[1]
+        if live != ref:
+            live.clear()
+            (live.extend if isinstance(live, (list, bytearray)) else live.update)(ref)
+
+
+def global_state_restored():
+    """The call left no process-global state behind (so it cannot influence a later save of the same or another object)."""
+    cur = _global_state()
+    return all(live == _GLOBAL0.get(k, (None, type(live)()))[1] for k, (live, _s) in cur.items())
+
+
+def state_clause():
+    return ("no-process-global-state-left-behind", global_state_restored())
+
+
 def handlers_of(*qualnames):
     """(does the CURRENT source contain a `try`?, the exception classes named in its `except` clauses) over the given
     functions (the one under verification and whatever is inlined into it).  Read from the AST at check time."""
@@ -329,6 +366,7 @@ def save_setup_case(storekind, compkind):
 
     def save_setup(ctx):
         w = M.world(ctx)
+        reset_global_state()
         set_fault_model(w, f"{SER}:AutoSerialize.save")
         path = ctx.fresh("path", "str")
         mode = ctx.fresh("mode", "str")
@@ -495,6 +533,7 @@ def save_ensures(s):
         ("no-loadable-partial-target" + tag, atomic(s)),
         ("success-leaves-a-complete-target-with-skip-metadata" + tag, complete_at(s, t, full=True)),
         ("success-leaves-a-loadable-target" + tag, loadable_at(s, t)),
+        state_clause(),
     ]
 
 
@@ -506,6 +545,7 @@ def save_on_raise(s, E):
         ("frame:only-the-target-path-changes" + tag, frame(s)),
         ("write-once:existing-target-untouched" + tag, write_once(s)),
         ("no-loadable-partial-target" + tag, atomic(s)),
+        state_clause(),
     ]
     if E is FileExistsError:
         out.append(("refused-before-any-effect", w.effects == 0 and not w.fs.log))
@@ -591,6 +631,7 @@ C_SAVES = [make_save_contract(sk, ck) for sk, ck in SAVE_CASES]
 
 def rs_setup(ctx):
     w = M.world(ctx)
+    reset_global_state()
     set_fault_model(w, f"{SER}:AutoSerialize._recursive_save")
     it = Items(ctx, "obj")
     g = M.GhostGroup(w, unknown=True, tag="grp")
@@ -627,11 +668,12 @@ def rs_ensures(s):
         ("marker-written", z3.Select(g.A, SV(MARKER))),
         ("every-non-skipped-attribute-serialised", saved_formula(g.done, it, s.skip_names, s.skip_types)),
         ("nothing-removed-from-the-group", group_grew(s.old, g)),
+        state_clause(),
     ]
 
 
 def rs_on_raise(s, E):
-    return [("nothing-removed-from-the-group", group_grew(s.old, s.group))]
+    return [("nothing-removed-from-the-group", group_grew(s.old, s.group)), state_clause()]
 
 
 def rs_loop_pre(g):
@@ -786,6 +828,7 @@ def pick_case(ctx, names, what):
 
 def sv_setup(ctx):
     w = M.world(ctx)
+    reset_global_state()
     set_fault_model(w, f"{SER}:AutoSerialize._serialize_value", *SV_INLINE)
     kinds = _kinds()
     kind = pick_case(ctx, list(kinds), "kind")
@@ -821,11 +864,11 @@ def sv_ensures(s):
     g = s.group
     tag = f"[{s.case}]"
     return [("entry-for-name-present" + tag, g.present(s.name)),
-            ("nothing-removed-from-the-group" + tag, group_grew(s.old, g))]
+            ("nothing-removed-from-the-group" + tag, group_grew(s.old, g)), state_clause()]
 
 
 def sv_on_raise(s, E):
-    return [(f"nothing-removed-from-the-group[{s.case}]", group_grew(s.old, s.group))]
+    return [(f"nothing-removed-from-the-group[{s.case}]", group_grew(s.old, s.group)), state_clause()]
 
 
 def value_unser_term(ctx, v):
@@ -885,6 +928,7 @@ def _containers():
 
 def sc_setup(ctx):
     w = M.world(ctx)
+    reset_global_state()
     set_fault_model(w, f"{SER}:AutoSerialize._serialize_container")
     cs = _containers()
     kind = pick_case(ctx, list(cs), "container")
@@ -1342,6 +1386,18 @@ def rt_save(inp):
                                                        f"contents (e.g. {getattr(loaded, _value_mismatches(obj, loaded)[0])!r})"))
             elif not {SKIPN, SKIPT} <= _root_attr_keys(target):
                 problems.append(("success-without-skip-metadata", "save returned normally but the target's root attributes lack the skip lists"))
+        # ---- history: a failed save must not influence the next save of the same object
+        if exc is not None and inj.fired and eff in ("zip", "dir") and (pre == "absent" or inp.get("retry")):
+            retry = os.path.join(base, "retry.zip" if eff == "zip" else "retry")
+            try:
+                with contextlib.redirect_stdout(io.StringIO()):
+                    obj.save(retry, store=eff)
+                    again = load(retry)
+                if _attr_names(again) != want or _value_mismatches(obj, again):
+                    problems.append(("retry-after-failure", f"the save repeated after the failed one loads with attributes {sorted(_attr_names(again))} "
+                                                            f"(object has {sorted(want)})"))
+            except Exception as e:  # noqa: BLE001
+                problems.append(("retry-after-failure", f"the save repeated after the failed one raised {type(e).__name__}: {e}"))
         # ---- expected refusals
         if exc is not None and not inj.fired and objkind not in UNSTORABLE_OBJECTS:
             exp_val = comp_bad or (not (existed and mode != "o") and (store not in ("auto", "zip", "dir") or (eff == "dir" and os.path.splitext(target)[1] != "")))
